@@ -81,6 +81,9 @@ func checkTasks(p *Pipeline, scenario, engineName string) int {
 		if exit == 0 {
 			p.timed("determinism_selftest", func() { det = p.detSelfTest(bin, variant, params, m.Records, tc.DetRuns, env) })
 		}
+		if d := m.Stats["runs_discarded_build_mismatch"]; d*50 > int64(m.Runs) {
+			p.logf("WARNING: %d of %d runs were discarded because a message could not be built as intended", d, m.Runs)
+		}
 		sims += m.Stats["simulations"]
 		steps += m.Stats["scheduler_steps"]
 		nontrivial += m.Stats["runs_with_4plus_preemptions"]
